@@ -520,19 +520,23 @@ def expected(name, o, ds):
                 ys.append(ratio(a, a + c))
             out.append((0, "line", nm[f], xs + [0.0], ys + [0.0]))
     elif name == "against":
-        if F != 2:
+        if F < 2:
             return None
+        # one panel per ordered pair of different inputs (with two inputs: only input 0 against input 1)
+        pairs = [(0, 1)] if F == 2 else [(i, j) for i in range(F) for j in range(F) if i != j]
         Va = valid(ds, ["fcst"])
-        out.append((0, "line", "_", take(ds, 0, "fcst", Va), take(ds, 1, "fcst", Va)))
         V = valid(ds, ["obs", "fcst"])
-        ob, x, y = take(ds, 0, "obs", V), take(ds, 0, "fcst", V), take(ds, 1, "fcst", V)
-        out.append((0, "line", "_", x, y))
-        std = sqrt(var(ob)) / 2
-        for k in range(5):
-            ix = [i for i in range(len(ob)) if abs(ob[i] - y[i]) > abs(ob[i] - x[i]) + std * k / 5]
-            iy = [i for i in range(len(ob)) if abs(ob[i] - y[i]) + std * k / 5 < abs(ob[i] - x[i])]
-            out.append((0, "line", "_", [x[i] for i in ix], [y[i] for i in ix]))
-            out.append((0, "line", "_", [x[i] for i in iy], [y[i] for i in iy]))
+        for ax, (f0, f1) in enumerate(pairs):
+            ax += F > 2         # layout, not data: with more than two inputs the code leaves an empty full-figure axes at index 0
+            out.append((ax, "line", "_", take(ds, f0, "fcst", Va), take(ds, f1, "fcst", Va)))
+            ob, x, y = take(ds, f0, "obs", V), take(ds, f0, "fcst", V), take(ds, f1, "fcst", V)
+            out.append((ax, "line", "_", x, y))
+            std = sqrt(var(ob)) / 2
+            for k in range(5):
+                ix = [i for i in range(len(ob)) if abs(ob[i] - y[i]) > abs(ob[i] - x[i]) + std * k / 5]
+                iy = [i for i in range(len(ob)) if abs(ob[i] - y[i]) + std * k / 5 < abs(ob[i] - x[i])]
+                out.append((ax, "line", "_", [x[i] for i in ix], [y[i] for i in ix]))
+                out.append((ax, "line", "_", [x[i] for i in iy], [y[i] for i in iy]))
     elif name == "change":
         th = o["r"]
         V = valid(ds, ["obs", "fcst"])
